@@ -425,6 +425,13 @@ def rules(rep, m):
     from . import c08
     c08.guard_leave_rule(rep, r7, m, dequeue_only=True)
 
+    # R-C13-8 ------------------------------------------------------------
+    r8 = rep.rule("R-C13-8", "a waiter that is stopped is taken out of the condition's queue before its holdings are dropped: "
+                  "the drop signals the resource's list, which is forwarded to the observing condition - a forwarded signal "
+                  "that finds the dying process still queued is spent on it and lost for the satisfied waiters behind it "
+                  "(shared with R-C08-5)", floor=1)
+    c08.stop_ordering(rep, r8, m)
+
 
 def compiler_witness(rep, m):
     """Thorough tier: every first-member step used to accept a cast is re-checked by the real compiler as a
